@@ -144,16 +144,31 @@ struct Acc {
     fps: HashSet<u64>,
     counters: BTreeMap<&'static str, u64>,
     info: Vec<Value>,
+    /// violations of this chunk, first occurrence per key (forwarded in chunk order so
+    /// that the reported counterexample is the lowest-index = simplest one)
+    viols: BTreeMap<String, (String, Value, u64)>,
 }
 
 impl Acc {
     fn out(&mut self, label: impl Into<String>) {
         *self.outcomes.entry(label.into()).or_insert(0) += 1;
     }
+    fn viol(&mut self, key: impl Into<String>, what: impl Into<String>, case: Value) {
+        let e = self.viols.entry(key.into()).or_insert_with(|| (what.into(), case, 0));
+        e.2 += 1;
+    }
+    fn flush_viols(&mut self, ctx: &Ctx) {
+        for (k, (what, case, n)) in std::mem::take(&mut self.viols) {
+            for _ in 0..n {
+                ctx.violation(k.clone(), what.clone(), case.clone());
+            }
+        }
+    }
     fn cnt(&mut self, k: &'static str, n: u64) {
         *self.counters.entry(k).or_insert(0) += n;
     }
-    fn merge_into(self, ctx: &Ctx, total: &mut BTreeMap<&'static str, u64>, info: &mut Vec<Value>) {
+    fn merge_into(mut self, ctx: &Ctx, total: &mut BTreeMap<&'static str, u64>, info: &mut Vec<Value>) {
+        self.flush_viols(ctx);
         ctx.evals(self.evals);
         ctx.outcomes_merge(&self.outcomes);
         ctx.fps_merge(self.fps);
@@ -657,19 +672,19 @@ fn sig_eval(kinds: &[u8], owners: &[u8], widx: &[u16], m: usize, only: Option<&[
         let got = guard::catch_any(|| tx.check_signatures(&env.chain));
         let got_ok = match &got {
             Err(p) => {
-                ctx.violation("C20:sig:host-panic", format!("check_signatures panicked: {p}; {}", descr()), case.clone());
+                acc.viol("C20:sig:host-panic", format!("check_signatures panicked: {p}; {}", descr()), case.clone());
                 continue
             }
             Ok(r) => r.is_ok(),
         };
         if got_ok && !expected {
-            ctx.violation(
+            acc.viol(
                 "C20:sig:accepted-unauthorized",
                 format!("check_signatures Ok although some signed input's witness does not recover to its owner: {}", descr()),
                 case.clone(),
             );
         } else if !got_ok && expected {
-            ctx.violation(
+            acc.viol(
                 "C20:sig:rejected-authorized",
                 format!("check_signatures {:?} although every signed input's witness recovers to its owner: {}", got, descr()),
                 case.clone(),
@@ -681,7 +696,7 @@ fn sig_eval(kinds: &[u8], owners: &[u8], widx: &[u16], m: usize, only: Option<&[
                 acc.cnt("sig_checked_path", 1);
                 let r = guard::catch_any(|| c.check_signatures(&env.chain).is_ok());
                 if r != Ok(expected) {
-                    ctx.violation(
+                    acc.viol(
                         "C20:sig:checked-path-differs",
                         format!("Checked::check_signatures gave {r:?}, oracle says {expected}: {}", descr()),
                         case.clone(),
@@ -689,7 +704,7 @@ fn sig_eval(kinds: &[u8], owners: &[u8], widx: &[u16], m: usize, only: Option<&[
                 }
             }
             Ok(Err(_)) => acc.cnt("sig_basic_rejected", 1),
-            Err(p) => ctx.violation("C20:sig:host-panic", format!("into_checked_basic panicked: {p}"), case.clone()),
+            Err(p) => acc.viol("C20:sig:host-panic", format!("into_checked_basic panicked: {p}"), case.clone()),
         }
         acc.out(format!("sig:{}", if got_ok { "accepted" } else { "rejected" }));
         if got_ok {
@@ -886,7 +901,7 @@ fn sweep_eval(k: usize, byte: usize, bit: u8, env: &Env, ctx: &Ctx, acc: &mut Ac
             return
         }
         Err(p) => {
-            ctx.violation("C20:sweep:host-panic", format!("decoding a mutant panicked: {p}"), json!({"part": "sweep", "tx": k, "byte": byte, "bit": bit}));
+            acc.viol("C20:sweep:host-panic", format!("decoding a mutant panicked: {p}"), json!({"part": "sweep", "tx": k, "byte": byte, "bit": bit}));
             return
         }
     };
@@ -902,7 +917,7 @@ fn sweep_eval(k: usize, byte: usize, bit: u8, env: &Env, ctx: &Ctx, acc: &mut Ac
     acc.out("sweep:signed-byte");
     acc.fps.insert(vcore::run::hash64(&("sweep", k, byte, bit)));
     if r != Ok(false) {
-        ctx.violation(
+        acc.viol(
             "C20:sweep:signed-content-changed-but-accepted",
             format!("tx {k}: flipping bit {bit} of byte {byte} (of {}) changes signed content, check_signatures gave {r:?}", bytes.len()),
             json!({"part": "sweep", "tx": k, "byte": byte, "bit": bit}),
@@ -1161,7 +1176,7 @@ fn pred_eval(prog: &[u8], place: usize, env: &Env, ctx: &Ctx, acc: &mut Acc) {
     let (est, est_gas) = estimate_seq(&tx0, &env.cpp, MemoryInstance::new());
     acc.evals += 1;
     if let V::Panic(p) = &est {
-        ctx.violation("C20:pred:host-panic", format!("estimate_predicates panicked: {p}; {}", descr("estimate", &[])), case.clone());
+        acc.viol("C20:pred:host-panic", format!("estimate_predicates panicked: {p}; {}", descr("estimate", &[])), case.clone());
     }
     acc.out(format!("pred:estimate={},all-true={}", est.label(), all_true));
     if est.is_ok() && !all_true {
@@ -1209,10 +1224,10 @@ fn pred_eval(prog: &[u8], place: usize, env: &Env, ctx: &Ctx, acc: &mut Acc) {
             None
         };
         match &v {
-            V::Panic(p) => ctx.violation("C20:pred:host-panic", format!("verification panicked: {p}; {}", descr(label, gas)), case.clone()),
+            V::Panic(p) => acc.viol("C20:pred:host-panic", format!("verification panicked: {p}; {}", descr(label, gas)), case.clone()),
             V::Ok(total) => {
                 if let Some(w) = why_not {
-                    ctx.violation(
+                    acc.viol(
                         format!("C20:pred:accepted-unauthorized:{w}"),
                         format!("check_predicates Ok({total}) but the tx is not authorized ({w}): {}", descr(label, gas)),
                         case.clone(),
@@ -1220,7 +1235,7 @@ fn pred_eval(prog: &[u8], place: usize, env: &Env, ctx: &Ctx, acc: &mut Acc) {
                 }
                 let sum: u64 = gas.iter().sum();
                 if *total != sum {
-                    ctx.violation(
+                    acc.viol(
                         "C20:pred:total-gas",
                         format!("check_predicates Ok({total}) but the declared gas sums to {sum}: {}", descr(label, gas)),
                         case.clone(),
@@ -1231,7 +1246,7 @@ fn pred_eval(prog: &[u8], place: usize, env: &Env, ctx: &Ctx, acc: &mut Acc) {
         }
         if label == "estimated" {
             if est.is_ok() && all_true && !v.is_ok() {
-                ctx.violation(
+                acc.viol(
                     "C20:pred:estimate-ok-verify-rejects",
                     format!("estimation Ok, every predicate true per reference, but verification of the estimated tx gave {}: {}", v.label(), descr(label, gas)),
                     case.clone(),
@@ -1239,7 +1254,7 @@ fn pred_eval(prog: &[u8], place: usize, env: &Env, ctx: &Ctx, acc: &mut Acc) {
             }
             if let (V::Ok(e), V::Ok(t)) = (&est, &v) {
                 if e != t {
-                    ctx.violation(
+                    acc.viol(
                         "C20:pred:estimate-total-vs-verify-total",
                         format!("estimation total {e} != verification total {t}: {}", descr(label, gas)),
                         case.clone(),
@@ -1252,7 +1267,7 @@ fn pred_eval(prog: &[u8], place: usize, env: &Env, ctx: &Ctx, acc: &mut Acc) {
                     c.check_predicates(&env.cpp, MemoryInstance::new(), &EmptyStorage, NotSupportedEcal).is_ok()
                 });
                 if r != Ok(v.is_ok()) {
-                    ctx.violation(
+                    acc.viol(
                         "C20:pred:checked-method-differs",
                         format!("Checked::check_predicates gave {r:?}, predicates::check_predicates {}: {}", v.label(), descr(label, gas)),
                         case.clone(),
@@ -1413,7 +1428,7 @@ fn sched_eval(roles: &[u8], env: &Env, ctx: &Ctx, acc: &mut Acc) {
     }
     // sanity of the family itself (by construction), reported as a violation of its own class
     if seq.is_ok() != expect_ok {
-        ctx.violation(
+        acc.viol(
             "C20:sched:sequential-verdict-vs-role-construction",
             format!("sequential check_predicates gave {} but the roles say accepted={expect_ok}: {base}", seq.label()),
             case.clone(),
@@ -1425,7 +1440,7 @@ fn sched_eval(roles: &[u8], env: &Env, ctx: &Ctx, acc: &mut Acc) {
         let v = verify_seq(&tx, &env.cp, &env.cpp, env.tpl[k].clone());
         acc.evals += 1;
         if let Some(w) = seq.agrees(&v) {
-            ctx.violation(
+            acc.viol(
                 format!("C20:seq-reused-memory:check-{w}"),
                 format!("check_predicates on fresh memory {seq:?}, on {} memory {v:?}: {base}", MEM_NAMES[k]),
                 case.clone(),
@@ -1437,7 +1452,7 @@ fn sched_eval(roles: &[u8], env: &Env, ctx: &Ctx, acc: &mut Acc) {
         let (v, g) = estimate_seq(&tx0, &env.cpp, env.tpl[k].clone());
         acc.evals += 1;
         if let Some(w) = eseq.agrees(&v).or(if eseq.is_ok() && g != eseq_gas { Some("gas") } else { None }) {
-            ctx.violation(
+            acc.viol(
                 format!("C20:seq-reused-memory:estimate-{w}"),
                 format!("estimate_predicates on fresh memory {eseq:?} {eseq_gas:?}, on {} memory {v:?} {g:?}: {base}", MEM_NAMES[k]),
                 case.clone(),
@@ -1471,7 +1486,7 @@ fn sched_eval(roles: &[u8], env: &Env, ctx: &Ctx, acc: &mut Acc) {
                     panic!("harness executor did not run the requested schedule: created {} ran {:?} wanted {perm:?}", p.created, p.ran);
                 }
                 if let Some(w) = seq.agrees(&p.v) {
-                    ctx.violation(
+                    acc.viol(
                         format!("C20:seq-vs-par:check-{w}"),
                         format!("check_predicates {seq:?} vs check_predicates_async {:?} under {}: {base}", p.v, sched()),
                         case.clone(),
@@ -1487,7 +1502,7 @@ fn sched_eval(roles: &[u8], env: &Env, ctx: &Ctx, acc: &mut Acc) {
                     panic!("harness executor did not run the requested schedule (estimate)");
                 }
                 if let Some(w) = eseq.agrees(&e.v).or(if eseq.is_ok() && e.gas != eseq_gas { Some("gas") } else { None }) {
-                    ctx.violation(
+                    acc.viol(
                         format!("C20:seq-vs-par:estimate-{w}"),
                         format!(
                             "estimate_predicates {eseq:?} per-input {eseq_gas:?} vs estimate_predicates_async {:?} per-input {:?} under {}: {base}",
@@ -1509,7 +1524,7 @@ fn sched_eval(roles: &[u8], env: &Env, ctx: &Ctx, acc: &mut Acc) {
         block_on(checked.clone().check_predicates_async::<NotSupportedEcal, HExec>(&env.cpp, &pool, &EmptyStorage, NotSupportedEcal)).is_ok()
     });
     if r != Ok(seq.is_ok()) {
-        ctx.violation(
+        acc.viol(
             "C20:seq-vs-par:checked-method",
             format!("Checked::check_predicates_async gave {r:?}, sequential {seq:?}: {base}"),
             case.clone(),
@@ -1648,7 +1663,7 @@ fn limit_eval(roles: &[u8], extra: u64, pp: u64, env: &Env, ctx: &Ctx, acc: &mut
             acc.evals += 1;
             acc.cnt("limit_schedules", 1);
             if let Some(w) = eseq.agrees(&e.v).or(if eseq.is_ok() && e.gas != eseq_gas { Some("gas") } else { None }) {
-                ctx.violation(
+                acc.viol(
                     format!("C20:seq-vs-par:estimate-{w}:gas-limit"),
                     format!(
                         "estimate_predicates {eseq:?} per-input {eseq_gas:?} vs estimate_predicates_async {:?} per-input {:?} (run order {perm:?}): {base}",
@@ -1675,20 +1690,20 @@ fn limit_eval(roles: &[u8], extra: u64, pp: u64, env: &Env, ctx: &Ctx, acc: &mut
         match &v {
             V::Ok(total) => {
                 if *total != eg.iter().sum::<u64>() {
-                    ctx.violation("C20:pred:total-gas", format!("verification total {total} != sum of estimated {eg:?}: {base}"), case.clone());
+                    acc.viol("C20:pred:total-gas", format!("verification total {total} != sum of estimated {eg:?}: {base}"), case.clone());
                 }
                 acc.fps.insert(vcore::run::hash64(&("limit", roles, extra, pp)));
             }
             V::Err(c) => {
                 let class = c.split(':').next().unwrap_or("").to_string();
                 let class = if class == "basic" { c.clone() } else { class };
-                ctx.violation(
+                acc.viol(
                     format!("C20:estimate-ok-verify-rejects:{path}:{class}"),
                     format!("{path} estimation Ok with per-input gas {eg:?}, but verification of the estimated tx gave Err({c}): {base}"),
                     case.clone(),
                 );
             }
-            V::Panic(p) => ctx.violation("C20:pred:host-panic", format!("verification panicked: {p}: {base}"), case.clone()),
+            V::Panic(p) => acc.viol("C20:pred:host-panic", format!("verification panicked: {p}: {base}"), case.clone()),
         }
         // sequential vs parallel verification of the estimated transaction, all schedules
         if let Ok(Ok(checked)) = guard::catch_any(|| tx.clone().into_checked_basic(BlockHeight::new(0), &cp)) {
@@ -1698,7 +1713,7 @@ fn limit_eval(roles: &[u8], extra: u64, pp: u64, env: &Env, ctx: &Ctx, acc: &mut
                     acc.evals += 1;
                     acc.cnt("limit_schedules", 1);
                     if let Some(w) = v.agrees(&p.v) {
-                        ctx.violation(
+                        acc.viol(
                             format!("C20:seq-vs-par:check-{w}:gas-limit"),
                             format!("check_predicates {v:?} vs check_predicates_async {:?} (run order {perm:?}) on the {path}-estimated tx {eg:?}: {base}", p.v),
                             case.clone(),
@@ -1810,6 +1825,7 @@ fn replay(case: &Value, ctx: &Ctx) {
         Some("limit") => limit_eval(&u8s(&case["roles"]), case["extra"].as_u64().unwrap(), case["pp"].as_u64().unwrap(), &env, ctx, &mut acc),
         other => panic!("unknown part {other:?}"),
     }
+    acc.flush_viols(ctx);
 }
 
 fn main() {
